@@ -15,6 +15,7 @@ import (
 	"verif/harness/internal/sched"
 
 	"github.com/buildbuildio/pebbles/common"
+	"github.com/buildbuildio/pebbles/gqlerrors"
 )
 
 // C20 — AsyncMapReduce maps once, reduces serially, waits, leaks nothing.
@@ -30,6 +31,9 @@ type c20Case struct {
 	Reps    int    `json:"repetitions"`
 	Jitter  uint64 `json:"jitter_seed"`
 	SlowRed bool   `json:"slow_reduce"`
+	// SameMsg: the failing items return errors with one and the same message and extensions that differ in their
+	// path only (two entities of a list that cannot be completed); each of them is an error that occurred
+	SameMsg bool `json:"same_message,omitempty"`
 }
 
 func (c20) ID() string            { return "C20" }
@@ -161,6 +165,7 @@ func (p c20) Gen(c *run.Ctx, idx int) (json.RawMessage, error) {
 	default:
 		cs.Reps = 3
 	}
+	cs.SameMsg = r.Intn(4) == 0
 	return mustJSON(cs), nil
 }
 
@@ -249,7 +254,11 @@ func (p c20) Exec(c *run.Ctx, idx int, raw json.RawMessage) []run.Result {
 		sumWant := 0
 		for i, e := range sp.Errs {
 			if e {
-				want = append(want, fmt.Sprintf("err-%d", i))
+				if sp.SameMsg {
+					want = append(want, fmt.Sprintf("same failure@[%d]", i))
+				} else {
+					want = append(want, fmt.Sprintf("err-%d", i))
+				}
 			} else {
 				sumWant += i + 1
 			}
@@ -266,6 +275,9 @@ func (p c20) Exec(c *run.Ctx, idx int, raw json.RawMessage) []run.Result {
 					atomic.AddInt32(&mapCalls[it.idx], 1)
 					<-gates[it.idx]
 					if it.err {
+						if sp.SameMsg {
+							return c20Res{}, &gqlerrors.Error{Message: "same failure", Path: []interface{}{it.idx}, Extensions: map[string]interface{}{"code": "SAME"}}
+						}
 						return c20Res{}, errors.New(fmt.Sprintf("err-%d", it.idx))
 					}
 					return c20Res{it.idx}, nil
@@ -279,14 +291,20 @@ func (p c20) Exec(c *run.Ctx, idx int, raw json.RawMessage) []run.Result {
 						atomic.AddInt32(&reduced[v.idx], 1)
 					}
 					if sp.SlowRed {
+						// long enough for the workers that are done to queue up on the channels meanwhile
 						runtime.Gosched()
+						time.Sleep(40 * time.Microsecond)
 					}
 					atomic.StoreInt32(&inReduce, 0)
 					return acc + v.idx + 1
 				})
 			var es []string
 			for _, e := range errs {
-				es = append(es, e.Message)
+				if sp.SameMsg {
+					es = append(es, fmt.Sprintf("%s@%v", e.Message, e.Path))
+				} else {
+					es = append(es, e.Message)
+				}
 			}
 			sort.Strings(es)
 			done <- ret{acc, es}
